@@ -1725,8 +1725,11 @@ def select__namespace_node_kind_test(self: XPathFunction, context: ta.ContextTyp
         return  # deprecated for XP20+ and not needed for schema analysis
     elif isinstance(context.item, ElementNode):
         elem = context.item
-        for context.item in elem.namespace_nodes:
-            yield context.item  # noqa
+        try:
+            for context.item in elem.namespace_nodes:
+                yield context.item  # noqa
+        finally:
+            context.item = elem  # give the focus back, also when the consumer stops early or raises
 
 
 ###
